@@ -36,8 +36,8 @@ PROP = "C18"
 VERIF = os.path.dirname(HERE)
 
 # deviation switches of spec/AyDump.tla that reproduce the code as it is (every one is a finding on the pinned tree)
-ASIS = ["ElideDelDefault", "ElideNewDefault", "ElideSafeDefault", "ElideSafeParent", "PlainTagNotPushed",
-        "SafeTagTrue", "KindTagNoMd", "NullDropsFlags", "ClearNoValue", "PathNoRefWraps", "ReprQuoting"]
+ASIS = ["ElideDelDefault", "ElideDelParent", "ElideNewDefault", "ElideSafeDefault", "ElideSafeParent", "PlainTagNotPushed",
+        "SafeTagTrue", "NullDropsFlags", "ClearNoValue", "PathNoRefWraps", "ReprQuoting"]
 INVS = ["Inv_DumpOk", "Inv_Interchangeable", "Inv_SameValue", "Inv_SameMd", "Inv_DumpStable"]
 
 FINDINGS = {  # switch -> (finding id, call site, what fails)
@@ -45,6 +45,9 @@ FINDINGS = {  # switch -> (finding id, call site, what fails)
                         "an explicit delete flag equal to the node type's default is not written: `!del []` comes back as `[]` "
                         "(the remove-this-key idiom is lost), `!merge {l: [..]}` and `!del {x: !merge {..}}` come back without !merge "
                         "(the inner node then follows what it inherits instead of its own flag)"),
+    "ElideDelParent": ("F11b", "awesomeyaml/yaml.py _node_representer (current == parent)",
+                       "an explicit delete flag equal to the enclosing encoded entry is not written; the child then only inherits it, and loses it "
+                       "when `!prev` moves it elsewhere (`z: {p: 1}; a: !metadata{{'delete': True, 'm': 1}} {x: !del {q: 2}}` then `z: !prev a.x`)"),
     "ElideNewDefault": ("F11c", "awesomeyaml/yaml.py _node_representer (current == default, allow_new)",
                         "`!new` (allow_new=True) is never written: `!notnew {x: !new {..}}` comes back with x forbidding new keys"),
     "ElideSafeDefault": ("F11d", "awesomeyaml/yaml.py _node_representer (current == default, safe)",
@@ -55,12 +58,11 @@ FINDINGS = {  # switch -> (finding id, call site, what fails)
                         "behave differently once the node is replaced (node.py:440-441 taints the replacement, composed.py:396-401 stops propagation)"),
     "PlainTagNotPushed": ("F11f", "awesomeyaml/yaml.py _node_representer (stack push after the plain-tag branch)",
                           "a flag written as a plain tag is removed from `metadata` before the push: grandchildren are compared with an OUTER "
-                          "container's entry and omit a flag their parent overrides (`!metadata{{'allow_new': False, ..}} {a: !new [ !notnew {..} ]}`)"),
+                          "container's entry and omit a flag their parent overrides (`!metadata{{'allow_new': False, ..}} {a: !new [ !notnew {..} ]}`); "
+                          "children also repeat the parent's plain tag, which `!append` / `!prev` / `!include` / `!import` cannot carry: "
+                          "`a: !force {b: !append [1]}` dumps `!append:<enc>`, for which no constructor exists"),
     "SafeTagTrue": ("F11g", "awesomeyaml/yaml.py _node_representer tags_to_infer['safe'][True]",
                     "a lone safe=True is written as `!safe`, for which no constructor exists: the dumped text does not parse"),
-    "KindTagNoMd": ("F11l", "awesomeyaml/yaml.py add_constructor('!append' / '!prev' / '!include' / '!import') without a ':' multi-constructor",
-                    "`!append`, `!prev`, `!include`, `!import` below a tagged container receive its priority; the dump writes `!append:<enc>` "
-                    "for which no constructor exists: the dumped text does not parse (`a: !force {b: !append [1]}`)"),
     "NullDropsFlags": ("F11h", "awesomeyaml/yaml.py _node_representer (data is None branch)",
                        "None is always written as a bare `!null`: `!force ~`, `!del` (remove-this-key), `!metadata{{..}} ~` lose flags and user metadata"),
     "ClearNoValue": ("F11i", "awesomeyaml/nodes/clear.py (no value) via ConfigNode.ayns.represent",
@@ -123,12 +125,13 @@ def kind_class(k):
     return "eval" if k == "fstr" else k
 
 
-def obs(n):
-    comp = n["k"] in COMPOSED
+def obs(n, c):
+    """n: projection of the merged tree; c: projection of its deep copy (what Config evaluates: inherited flags re-derived)"""
+    comp = c["k"] in COMPOSED
     return {"k": kind_class(n["k"]), "v": n["v"], "fn": n["fn"], "ref": n["ref"], "md": sorted(map(json.dumps, n["md"])), "pr": eff_pr(n),
-            "safe": eff_safe(n) if n["k"] in SAFEK else True,
-            "ksafe": ((n["safe"] if n["safe"] != "N" else n["isafe"]) != "F") if comp else True,
-            "ch": [[k, obs(c)] for k, c in n["ch"]]}
+            "safe": eff_safe(c) if c["k"] in SAFEK else True,
+            "ksafe": ((c["safe"] if c["safe"] != "N" else c["isafe"]) != "F") if comp else True,
+            "ch": [[k, obs(x, y)] for (k, x), (_, y) in zip(n["ch"], c["ch"])]}
 
 
 def data_of(n):
@@ -262,7 +265,8 @@ def outcome(texts, safes, evaluate=True):
         tree = b.build()
     except Exception as e:  # noqa
         return {"err": _errclass(e)}
-    o = {"obs": obs(P.project(tree))}
+    import copy
+    o = {"obs": obs(P.project(tree), P.project(copy.deepcopy(tree)))}
     if evaluate:
         from awesomeyaml.config import Config
         del vmod.CALLS[:]
@@ -373,7 +377,7 @@ def judge_pair(rt, model, ctxs_of, text0, safe, rng, nsample):
         return res
     chosen = [[0]]
     if model is not None:
-        chosen += [c for c in model["dx"] if c != [0]][:3]
+        chosen += [c for c in model["dx"] if c != [0]][:2]
     pool = ctxs_of(None, None)
     extra = nsample if (model is None or model.get("a_agree", True)) else 4 * nsample
     for c in rng.sample(pool, min(extra, len(pool))):
@@ -719,7 +723,7 @@ def run_replay(path):
 QUICK_JOBS = [  # (name, target universes, source safety, three-stage histories)
     ("pr+del", ["U_QFocusPr", "U_QFocusDel"], True, False),
     ("new+safe", ["U_QFocusNew", "U_QFocusSafe"], True, False),
-    ("kinds+siblings", ["U_QKinds", "U_Siblings"], True, False),
+    ("kinds+siblings", ["U_QKinds", "U_QSiblings"], True, False),
     ("unsafe-source", ["U_QFocusSafe", "U_MutKinds"], False, False),
     ("three-stage", ["U_Q3"], True, True),
 ]
@@ -738,7 +742,7 @@ MUTATIONS = [  # (deviation switch or design mutation, universe, source safety)
     ("ElideDelDefault", "U_MutDel", True), ("ElideNewDefault", "U_MutNew", True),
     ("ElideSafeDefault", "U_MutSafe", True), ("ElideSafeParent", "U_MutSafe", True), ("PlainTagNotPushed", "U_MutNew", True),
     ("SafeTagTrue", "U_MutSafe", False), ("NullDropsFlags", "U_MutKinds", True), ("ClearNoValue", "U_MutKinds", True),
-    ("PathNoRefWraps", "U_MutKinds", True), ("ReprQuoting", "U_MutKinds", True), ("KindTagNoMd", "U_MutKindsP", True),
+    ("PathNoRefWraps", "U_MutKinds", True), ("ReprQuoting", "U_MutKinds", True), ("ElideDelParent", "U_MutDel", True),
     ("mut:DropMdWithFlag", "U_MutKinds", True),
 ]
 
@@ -760,8 +764,8 @@ def run(prop, tier, seed, replay, keep):
     if os.environ.get("C18_JOBS"):      # debugging aid: a subset of the model-checking jobs
         jobs = [j for j in jobs if j[0] in os.environ["C18_JOBS"].split(",")]
     tmo = 600 if quick else 3000
-    nsample = 3 if quick else 6
-    ntraces = 500 if quick else 4000
+    nsample = 2 if quick else 6
+    ntraces = 300 if quick else 4000
     cov = {"configs": [], "mutations": [], "states": 0, "transitions": 0, "traces_validated_against_impl": 0, "samples": [],
            "evaluations": 0, "distinct_nontrivial": 0, "exhaustive": True}
     violations, drift, known_hits = [], 0, {}
@@ -769,10 +773,11 @@ def run(prop, tier, seed, replay, keep):
     pool = mp.get_context("fork").Pool(16)
     try:
         # ---------------- universes (each expression evaluated once, cached)
-        names = sorted({n for _, us, _, _ in jobs for n in us} | {u for _, u, _ in MUTATIONS} | {"U_CtxBig", "U_CtxSmall"})
-        with ThreadPoolExecutor(6) as ex:
+        cb_name, cs_name = ("U_CtxQ", "U_CtxSmallQ") if quick else ("U_CtxBig", "U_CtxSmall")
+        names = sorted({n for _, us, _, _ in jobs for n in us} | {u for _, u, _ in MUTATIONS} | {cb_name, cs_name})
+        with ThreadPoolExecutor(8) as ex:
             sets = dict(zip(names, ex.map(gen_set, names)))
-        ctxbig, ctxsmall = sets["U_CtxBig"], sets["U_CtxSmall"]
+        ctxbig, ctxsmall = sets[cb_name], sets[cs_name]
         t_uni = time.time() - t0
 
         def upath_of(name, unames):
